@@ -4,19 +4,19 @@ import GrVerif.Model.Pass
 # C15 — positions are design-unit results scaled linearly by the font size   (partial)
 
 Model: `Model/Position.lean` – `Segment::positionSlots`, `Slot::finalise` (own origin, recursion into first child and next
-sibling, cluster adjustment, `floodShift`) for a left-to-right run and an unhinted font of scale `k = ppm / upem`, in exact
+sibling, cluster adjustment, `floodShift`) for a run in either direction (`isRtl`: walked from its last slot back, advances subtracted) and an unhinted font of scale `k = ppm / upem`, in exact
 rational arithmetic.  The design-unit instance (`k = 1`) is compared slot by slot with the real engine on every synthesised
 font of the C06 correspondence (origins, advances, segment advance are exact in that case).
 
 Proved:
-* `positions_scale_linearly` – for every heap, every stream and every scale `k > 0`, positioning with scale `k` yields
+* `positions_scale_linearly` – for every heap, every stream, either run direction and every scale `k > 0`, positioning with scale `k` yields
   exactly `k` times the design-unit origins and `k` times the design-unit advance of the run; the comparisons inside
   `finalise` (the half-unit threshold on the *design-unit* advance, negative origins, cluster minimum, running maximum) are
   all invariant under the scaling, which is what a misplaced `* scale` breaks;
 * `glyphs_do_not_depend_on_the_font` – in the model the passes never see the font: glyph ids, attachments and associations
   are computed before, and independently of, the scale.
 
-Not covered: single-precision rounding (the model is exact), right-to-left runs, hinted fonts (advance callbacks), collision
+Not covered: single-precision rounding (the model is exact), hinted fonts (advance callbacks), collision
 offsets and justification – for those the property is decided on the implementation by comparing `font = NULL` with sized
 fonts on shipped fonts (`tools/props/c15.py`).
 -/
@@ -24,15 +24,15 @@ set_option linter.unusedVariables false
 namespace GrVerif.Props.C15
 open GrVerif.Seg GrVerif.Pos
 
-theorem positions_scale_linearly (seg : Seg) (k : Rat) (hk : 0 < k) (l : List Nat) :
-    positionSlots seg k l = (scaleP k (positionSlots seg 1 l).1, scaleSt k (positionSlots seg 1 l).2) :=
-  positionSlots_scale seg k hk l
+theorem positions_scale_linearly (seg : Seg) (k : Rat) (hk : 0 < k) (l : List Nat) (rtl : Bool) :
+    positionSlots seg k l rtl = (scaleP k (positionSlots seg 1 l rtl).1, scaleSt k (positionSlots seg 1 l rtl).2) :=
+  positionSlots_scale seg k hk l rtl
 
 /-- every single origin, spelled out -/
-theorem origin_scales (seg : Seg) (k : Rat) (hk : 0 < k) (l : List Nat) (i : Nat) :
-    ((positionSlots seg k l).2.getPos i).1 = k * ((positionSlots seg 1 l).2.getPos i).1 ∧
-    ((positionSlots seg k l).2.getPos i).2 = k * ((positionSlots seg 1 l).2.getPos i).2 := by
-  rw [positions_scale_linearly seg k hk l]
+theorem origin_scales (seg : Seg) (k : Rat) (hk : 0 < k) (l : List Nat) (rtl : Bool) (i : Nat) :
+    ((positionSlots seg k l rtl).2.getPos i).1 = k * ((positionSlots seg 1 l rtl).2.getPos i).1 ∧
+    ((positionSlots seg k l rtl).2.getPos i).2 = k * ((positionSlots seg 1 l rtl).2.getPos i).2 := by
+  rw [positions_scale_linearly seg k hk l rtl]
   simp only [scaleSt_getPos, scaleP]
   exact ⟨trivial, trivial⟩
 
